@@ -519,7 +519,7 @@ def rule_nb_mode(ctx, cfg, F):
         vals = tuple(sorted(d.items()))
         if b in sites:
             fv = valof(vals, f.term(b)["args"][2])
-            seen.setdefault((mode, nb, fv), b)
+            seen.setdefault((next(iter(mode)) if mode is not None and len(mode) == 1 else None, nb, fv), b)
             return None
         if b in setters:
             nb = "pending:%d" % b
@@ -530,10 +530,10 @@ def rule_nb_mode(ctx, cfg, F):
     def edge(b, s, labs, st, env):
         mode, nb, vals = st
         for lab in labs:
-            if lab["kind"] == "variant" and (lab.get("adt") or "").endswith("BlockingMode") and lab.get("variant"):
-                mode = lab["variant"]
-            elif lab["kind"] == "variant_not" and (lab.get("adt") or "").endswith("BlockingMode") and lab.get("variant") and "|" not in lab["variant"]:
-                mode = lab["variant"]
+            if lab["kind"] in ("variant", "variant_not") and (lab.get("adt") or "").endswith("BlockingMode") and lab.get("variant"):
+                # what the mode can still be: a `matches!` followed by an `if let` narrows it in two steps
+                poss = frozenset(lab["variant"].split("|"))
+                mode = poss if mode is None else ((mode & poss) or poss)
             if isinstance(nb, str) and lab["kind"] == "cmp" and op_const(lab["b"]) == 0:
                 sb = int(nb.split(":")[1])
                 if any(r.kind == "call" and r.block == sb for r in tr.roots_of_operand(lab["a"])):
@@ -689,6 +689,10 @@ def rule_msg_commit(ctx, cfg, F):
         R.violate("anchor-missing:first-packet-read", "expected one first-packet read in %s, found %d" % (g.path, len(first)), g.path, config=cfg)
         return
     cb0 = first[0]
+    after_first = g.reachable(g.term(cb0)["to"]) | {cb0}
+    # the return place and the locals whose value is moved into it whole (the result of an inlined phase helper returned as the tail expression)
+    from rules.send import _place_class
+    ret_locals = {l for (l, p_) in _place_class(g, {(0, ())}) if not p_ and g.local_ty(l) == g.local_ty(0)}
     recv_blocks = {b for b, t in g.calls_to("libc::recv")}
     ex = Explorer(g)
     bad = {}
@@ -698,12 +702,14 @@ def rule_msg_commit(ctx, cfg, F):
         """how block b defines the return place: 'ok', 'err-first' (first read's error passed on), 'err-other', or None"""
         out = None
         for st in g.stmts(b):
-            if st["s"] == "assign" and st["lhs"]["l"] == 0 and not st["lhs"].get("p") and st["rv"]["r"] == "agg":
+            if st["s"] == "assign" and st["lhs"]["l"] in ret_locals and not st["lhs"].get("p") and st["rv"]["r"] == "agg" and (st["rv"]["kind"].get("adt") or "") == "std::result::Result":
                 v = st["rv"]["kind"].get("variant")
                 out = "ok" if v == "Ok" else "err-other"
         t = g.term(b)
-        if t["t"] == "call" and t["dest"]["l"] == 0 and not t["dest"].get("p") and "from_residual" in strip_generics(t.get("callee") or callee_name(t)):
-            roots = tr.roots_of_operand(t["args"][0])
+        if t["t"] == "call" and t["dest"]["l"] in ret_locals and not t["dest"].get("p") and "from_residual" in strip_generics(t.get("callee") or callee_name(t)):
+            # (an error produced before the first read -- the control buffer could not be allocated -- returned there and then: when a helper
+            # funnels both through one `?`, only what can still be produced after the first read counts here)
+            roots = [r for r in tr.roots_of_operand(t["args"][0]) if r.block is None or r.block in after_first]
             calls = {r.block for r in roots if r.kind == "call"}
             out = "err-first" if roots and calls == {cb0} and all(r.kind == "call" for r in roots) else "err-other"
         return out
